@@ -22,41 +22,46 @@ Say(keys) == hist' = hist \o keys /\ UNCHANGED fin
 K(p, point) == p \o "@" \o point
 N(p) == ToString(cnt[p] + 1)
 
+SK(i) == K(i, "set:" \o N(i))       \* the harness gate in front of the k-th Set call of installer i
 SimNext ==
+  \/ \E i \in Insts :
+       \/ SBegin(i) /\ Say(<<>>)
+       \/ SCall(i) /\ Say(IF Glob(i) = "global" /\ S.val[i] = "global" THEN <<SK(i)>> ELSE <<>>)   \* no-op self-set
+       \/ SRet(i) /\ Say(<<>>)
   \/ \E i \in MInst :
-       \/ IOnce(i) /\ Say(IF M.once = "free" THEN <<>> ELSE <<K(i, "set")>>)   \* the loser of the once blocks there
-       \/ IProvLock(i) /\ Say(<<K(i, "set")>>)
-       \/ (ICall(i) \/ IOnceWait(i) \/ (\E m \in Meters : IMeterLock(i, m)) \/ IRegLock(i)
-           \/ IMeterUnlock(i) \/ IProvUnlock(i) \/ IStore(i) \/ IRet(i)) /\ Say(<<>>)
+       \/ IOnce(i) /\ Say(IF M.once = "free" /\ S.cur[i] = "global" THEN <<>> ELSE <<SK(i)>>)   \* not the winner of the once
+       \/ IProvLock(i) /\ Say(<<SK(i)>>)
+       \/ (IOnceWait(i) \/ (\E m \in Meters : IMeterLock(i, m)) \/ IRegLock(i)
+           \/ IMeterUnlock(i) \/ IProvUnlock(i) \/ IStore(i)) /\ Say(<<>>)
        \/ IDelegateMeter(i) /\ Say(<<K(i, "sdk.Meter:" \o M.cur)>>)
        \/ \E x \in Owners : IInst(i, x) /\ Say(<<K(i, "sdk.Inst:" \o x)>>)
        \/ IReg(i) /\ Say(IF M.unreg[Head(M.registry[M.cur])] = "nil" THEN <<>>
                          ELSE <<K(i, "sdk.Register:" \o Head(M.registry[M.cur]))>>)
   \/ \E c \in Owners :
-       \/ OGet(c) /\ Say(IF M.gmp = "sdk" THEN <<K(c, "meter"), K(c, "sdk.Meter:" \o MeterOf[c])>> ELSE <<>>)
-       \/ OMeter(c) /\ Say(<<K(c, "meter")>> \o (IF M.pdel THEN <<K(c, "sdk.Meter:" \o MeterOf[c])>> ELSE <<>>))
-       \/ OInst(c) /\ Say(<<K(c, "inst")>> \o (IF M.handle[c] = "sdk" \/ M.mdel[MeterOf[c]]
+       \/ OGet(c) /\ Say(IF M.gmp # "global" /\ c \notin Kept THEN <<K(c, "meter"), K(c, "sdk.Meter:" \o MeterOf[c])>> ELSE <<>>)
+       \/ OMeter(c) /\ Say(<<K(c, "meter")>> \o (IF M.pdel # "none" THEN <<K(c, "sdk.Meter:" \o MeterOf[c])>> ELSE <<>>))
+       \/ OInst(c) /\ Say(<<K(c, "inst")>> \o (IF M.handle[c] # "global" \/ M.mdel[MeterOf[c]] # "none"
                                                 THEN <<K(c, "sdk.Inst:" \o c)>> ELSE <<>>))
        \/ RCall(c) /\ Say(<<>>)
        \/ RLoad(c) /\ Say(<<K(c, "rec:" \o N(c))>>)
-       \/ GRegister(c) /\ Say(<<K(c, "register")>> \o (IF M.handle[c] = "sdk" \/ M.mdel[MeterOf[c]]
+       \/ GRegister(c) /\ Say(<<K(c, "register")>> \o (IF M.handle[c] # "global" \/ M.mdel[MeterOf[c]] # "none"
                                                         THEN <<K(c, "sdk.Register:" \o c)>> ELSE <<>>))
        \/ GUnregCall(c) /\ Say(<<>>)
        \/ GUnregLock(c) /\ Say(<<K(c, "unreg")>> \o (IF M.rkind[c] = "sdk" THEN <<K(c, "sdk.Unregister:" \o c)>> ELSE <<>>))
        \/ GUnreg(c) /\ Say(IF M.utmp[c] = "sdk" THEN <<K(c, "sdk.Unregister:" \o c)>> ELSE <<>>)
        \/ GURet(c) /\ Say(<<>>)
   \/ \E i \in TInst :
-       \/ TIOnce(i) /\ Say(IF T.once = "free" THEN <<>> ELSE <<K(i, "tset")>>)
-       \/ TIProvLock(i) /\ Say(<<K(i, "tset")>>)
-       \/ (TICall(i) \/ TIOnceWait(i) \/ TIProvUnlock(i) \/ TIStore(i) \/ TIRet(i)) /\ Say(<<>>)
+       \/ TIOnce(i) /\ Say(IF T.once = "free" /\ S.cur[i] = "global" THEN <<>> ELSE <<SK(i)>>)
+       \/ TIProvLock(i) /\ Say(<<SK(i)>>)
+       \/ (TIOnceWait(i) \/ TIProvUnlock(i) \/ TIStore(i)) /\ Say(<<>>)
        \/ \E t \in Tracers : TITracer(i, t) /\ Say(<<K(i, "sdk.Tracer:" \o t)>>)
   \/ \E u \in TUsers :
-       \/ UGet(u) /\ Say(IF T.gtp = "sdk" THEN <<K(u, "tracer"), K(u, "sdk.Tracer:" \o TracerOf[u])>> ELSE <<>>)
-       \/ UTracer(u) /\ Say(<<K(u, "tracer")>> \o (IF T.pdel THEN <<K(u, "sdk.Tracer:" \o TracerOf[u])>> ELSE <<>>))
+       \/ UGet(u) /\ Say(IF T.gtp # "global" /\ u \notin Kept THEN <<K(u, "tracer"), K(u, "sdk.Tracer:" \o TracerOf[u])>> ELSE <<>>)
+       \/ UTracer(u) /\ Say(<<K(u, "tracer")>> \o (IF T.pdel # "none" THEN <<K(u, "sdk.Tracer:" \o TracerOf[u])>> ELSE <<>>))
        \/ UCall(u) /\ Say(<<>>)
        \/ ULoad(u) /\ Say(<<K(u, "start:" \o N(u))>>)
-  \/ \E i \in XI : \/ XSet(i) /\ Say(<<K(i, "xset")>>)
-                   \/ (XCall(i) \/ XStore(i) \/ XRet(i)) /\ Say(<<>>)
+  \/ \E i \in XI : \/ XOnce(i) /\ Say(<<SK(i)>>)
+                   \/ XStore(i) /\ Say(<<>>)
   \/ \E u \in XU : \/ XULoad(u) /\ Say(<<K(u, "use:" \o N(u))>>)
                    \/ XUCall(u) /\ Say(<<>>)
 
